@@ -7,7 +7,9 @@ package main
 
 import (
 	"context"
+	"crypto/sha256"
 	"crypto/x509"
+	"encoding/json"
 	"errors"
 	"fmt"
 	"sort"
@@ -175,6 +177,18 @@ func run(a *Args) error {
 	other := NewChain("c02 unrelated", 2, now.Add(-96*time.Hour), now.Add(96*time.Hour))
 	desc := ocispec.Descriptor{MediaType: "application/vnd.oci.image.manifest.v1+json", Digest: digest.Digest(strings.TrimPrefix(TestRef, TestScope+"@")), Size: 528}
 	payload := PayloadFor(desc)
+	// caller-owned objects handed to the library by reference; the same objects for every case
+	// (slices with spare capacity, so that an in-place append would be visible too)
+	descArg := desc
+	descArg.Annotations = map[string]string{"org.example.note": "caller-owned", "a": "b"}
+	descArg.URLs = append(make([]string, 0, 4), "https://example.invalid/blob")
+	sharedConfig := map[string]string{"zeta": "1", "alpha": "2"}
+	mkCerts := func(cs ...*x509.Certificate) []*x509.Certificate {
+		return append(make([]*x509.Certificate, 0, len(cs)+2), cs...)
+	}
+	rootsGood := mkCerts(old[2].C, good[2].C) // deliberately not sorted by subject
+	rootsNone := mkCerts()
+	rootsOther := mkCerts(other[1].C)
 	envCache := map[envKey][]byte{}
 	getEnv := func(k envKey, otherCrit, otherNon []string) []byte {
 		if b, ok := envCache[k]; ok {
@@ -320,6 +334,8 @@ func run(a *Args) error {
 		mgr      *MockManager
 		v        notation.Verifier
 		err      error
+		doc      *trustpolicy.OCIDocument // caller-owned, kept by the verifier by reference
+		config   map[string]string        // plugin config handed to every Verify on this rig
 	}
 	rigKey := func(s *scen) string {
 		return fmt.Sprintf("%s|%v|%v|%v|%v", s.Level, s.Override, s.EmptyOv, s.Identity, s.PM == 0)
@@ -337,7 +353,7 @@ func run(a *Args) error {
 			identities = []string{"x509.subject: CN=somebody else,O=Verif,ST=WA,C=US"}
 		}
 		doc := OCIPolicy(s.Level, ov, []string{"ca:s"}, identities, "")
-		r := &rig{key: rigKey(s), store: NewMockStore()}
+		r := &rig{key: rigKey(s), store: NewMockStore(), doc: doc, config: sharedConfig}
 		r.script, r.revCalls = NewRevScript(nil, nil)
 		opts := verifier.VerifierOptions{OCITrustPolicy: doc, RevocationCodeSigningValidator: r.script.Validator()}
 		if s.PM != 0 {
@@ -349,6 +365,7 @@ func run(a *Args) error {
 	}
 
 	var id int64
+	frameChecked := 0
 	prime := map[int64]bool{} // replay of a history step: the earlier steps are executed, not recorded
 	// exec realises one scenario (on the given rig, or on a fresh one); returns whether the verifier accepted (nil error)
 	exec := func(s *scen, shared *rig) (ran, accepted bool) {
@@ -370,13 +387,13 @@ func run(a *Args) error {
 		store.Fail = map[StoreKey]bool{}
 		switch s.Auth {
 		case 0:
-			store.Put(truststore.TypeCA, "s", good[2].C, old[2].C)
+			store.Certs[StoreKey{Type: truststore.TypeCA, Name: "s"}] = rootsGood
 		case 1:
 			store.Fail[StoreKey{Type: truststore.TypeCA, Name: "s"}] = true
 		case 2:
-			store.Put(truststore.TypeCA, "s")
+			store.Certs[StoreKey{Type: truststore.TypeCA, Name: "s"}] = rootsNone
 		case 3:
-			store.Put(truststore.TypeCA, "s", other[1].C)
+			store.Certs[StoreKey{Type: truststore.TypeCA, Name: "s"}] = rootsOther
 		}
 		nChain := 3
 		var results []*revresult.CertRevocationResult
@@ -456,7 +473,67 @@ func run(a *Args) error {
 		if err == nil {
 			s.ObsBuilt = true
 			env := getEnv(envKey{s.Format, s.Plugin, s.MinVer, fmt.Sprintf("%q", s.OtherCrit), fmt.Sprintf("%q", s.OtherNon), s.NonString, s.Expired, !s.TsOK, s.Integrity, s.HdrLast}, s.OtherCrit, s.OtherNon)
-			outcome, verr := v.Verify(context.Background(), desc, env, notation.VerifierVerifyOptions{ArtifactReference: TestRef, SignatureMediaType: s.Format})
+			vopts := notation.VerifierVerifyOptions{ArtifactReference: TestRef, SignatureMediaType: s.Format, PluginConfig: rg.config}
+			snap := func() []string {
+				docJ, _ := json.Marshal(rg.doc)
+				certs := func(cs []*x509.Certificate) string {
+					var b strings.Builder
+					for _, c := range cs[:cap(cs)] {
+						if c == nil {
+							b.WriteString("-;")
+						} else {
+							fmt.Fprintf(&b, "%p/%x;", c, sha256.Sum256(c.Raw))
+						}
+					}
+					return fmt.Sprintf("len=%d %s", len(cs), b.String())
+				}
+				var revs []string
+				for _, r := range script.Results {
+					revs = append(revs, fmt.Sprintf("%p:%v:%d", r, r.Result, len(r.ServerResults)))
+				}
+				plugS := ""
+				if plug != nil {
+					if plug.Meta != nil {
+						plugS += fmt.Sprintf("meta=%q %q %q;", plug.Meta.Name, plug.Meta.Version, plug.Meta.Capabilities)
+					}
+					if plug.Resp != nil {
+						var vr []string
+						for k, v := range plug.Resp.VerificationResults {
+							if v == nil {
+								vr = append(vr, string(k)+"=nil")
+							} else {
+								vr = append(vr, fmt.Sprintf("%s=%v/%q", k, v.Success, v.Reason))
+							}
+						}
+						sort.Strings(vr)
+						plugS += fmt.Sprintf("resp=%q nil=%v processed=%q nilp=%v", vr, plug.Resp.VerificationResults == nil, plug.Resp.ProcessedAttributes, plug.Resp.ProcessedAttributes == nil)
+					}
+				}
+				var lvls []string
+				for _, l := range trustpolicy.VerificationLevels {
+					lvls = append(lvls, fmt.Sprintf("%s=%v", l.Name, l.Enforcement))
+				}
+				return []string{
+					"the trust policy document held by the verifier", string(docJ),
+					"the descriptor's annotations / URLs", fmt.Sprintf("%v|%q|cap=%q|%v", descArg.Annotations, descArg.URLs, descArg.URLs[:cap(descArg.URLs)], descArg.Annotations == nil),
+					"the signature envelope bytes", fmt.Sprintf("%x", sha256.Sum256(env[:cap(env)])),
+					"the plugin config map of the verify options", fmt.Sprintf("%v nil=%v", rg.config, rg.config == nil),
+					"the certificate slice returned by the trust store", certs(rootsGood) + "|" + certs(rootsNone) + "|" + certs(rootsOther),
+					"the result slice returned by the revocation validator", strings.Join(revs, ","),
+					"the plugin's metadata / verify-signature response", plugS,
+					"the package's verification level tables", strings.Join(lvls, ";"),
+				}
+			}
+			before := snap()
+			outcome, verr := v.Verify(context.Background(), descArg, env, vopts)
+			after := snap()
+			for i := 0; i+1 < len(before); i += 2 {
+				if before[i+1] != after[i+1] {
+					w.ImplViolation(my, "library mutated caller-owned "+before[i], s, "")
+					w.Count("frame_violation", before[i])
+				}
+			}
+			frameChecked++
 			accepted = verr == nil
 			// error class
 			errT := "ENone"
@@ -925,7 +1002,7 @@ func run(a *Args) error {
 		{name: "strict", ov: map[string]string{"revocation": "skip"}},
 		{name: "permissive", ov: map[string]string{"expiry": "enforce", "revocation": "enforce"}},
 		{name: "audit", ov: map[string]string{"authenticity": "enforce", "authenticTimestamp": "enforce"}}}
-	runHistory := func(l lv, identity bool, steps []*scen) {
+	runHistory := func(l lv, identity bool, freshObjects bool, steps []*scen) {
 		if a.Only >= id && a.Only < id+int64(len(steps)) {
 			for j := id; j < a.Only; j++ {
 				prime[j] = true
@@ -941,6 +1018,10 @@ func run(a *Args) error {
 			if rg == nil {
 				rg = newRig(s)
 			}
+			if freshObjects {
+				// an equal fresh literal per step (the other histories pass the SAME object to every step)
+				rg.config = map[string]string{"zeta": "1", "alpha": "2"}
+			}
 			exec(s, rg)
 		}
 	}
@@ -952,7 +1033,7 @@ func run(a *Args) error {
 				st(s)
 				steps = append(steps, s)
 			}
-			runHistory(l, (li+hi)%5 != 0, steps)
+			runHistory(l, (li+hi)%5 != 0, (li+hi)%3 == 2, steps)
 		}
 	}
 
@@ -1160,6 +1241,7 @@ func run(a *Args) error {
 	for k := 0; k < n; k++ {
 		exec(gen(k), nil)
 	}
+	w.Set("frame_checks_caller_owned_objects", frameChecked)
 	w.Set("monotonicity_pairs_checked_on_implementation", monoPairs)
 	w.Set("monotonicity_violations_on_implementation", monoViol)
 	return w.Close()
